@@ -1495,7 +1495,11 @@ func (p *pinner) rebuildIndexes(ctx context.Context) error {
 		}
 		checkedCount++
 		if checkedCount%syncRepairFrequency == 0 {
-			p.flushPins(ctx, true)
+			// Sync only: the dirty flag must stay set until every pin is
+			// checked, or an interrupted repair would not be resumed.
+			if err = p.dstore.Sync(ctx, ds.NewKey(basePath)); err != nil {
+				return fmt.Errorf("cannot sync pin state: %v", err)
+			}
 		}
 	}
 
